@@ -6,10 +6,12 @@
    A[j][i] is non-zero (weights and the diagonal are irrelevant).  shortest_path /
    connected_components are oracles in the theorems about the fallback (their result D is
    universally quantified, with the one assumption that "finite distance" is an equivalence
-   relation); the executable instance hop_metric (Floyd-Warshall) is what the correspondence runs. *)
+   relation); the executable instance hop_metric (Floyd-Warshall) is what the correspondence runs,
+   and it is itself proved correct ([hop_metric_is_shortest_path]), so the theorems about
+   [make_dm] at the end need no assumption. *)
 From Coq Require Import ZArith List Bool Arith Lia.
 From Persim Require Import Spec.MGH Model.MGHM Model.GraphM Proofs.MGHUb Proofs.MGHFinal Proofs.GraphP
-  Proofs.GraphDm Proofs.GraphBr Proofs.GraphRelabel.
+  Proofs.GraphDm Proofs.GraphBr Proofs.GraphRelabel Proofs.GraphInduced Proofs.GraphFW.
 Import ListNotations.
 Open Scope Z_scope.
 
@@ -53,6 +55,40 @@ Theorem relabelled_graphs_isometric : forall A A' D D' p,
   isometric (map (map oz) D) (map (map oz) D').
 Proof. exact relabelled_connected_isometric. Qed.
 Print Assumptions relabelled_graphs_isometric.
+
+(* T1.  The executable instance needs no oracle assumption: Floyd-Warshall computes a correct
+   shortest-path answer for EVERY adjacency matrix; hence make_distance_matrix (intended variant)
+   never raises on a non-empty graph, returns a distance matrix, and relabelled connected graphs
+   get isometric distance matrices. *)
+Theorem hop_metric_is_shortest_path : forall A, sp A (hop_metric A).
+Proof. exact hop_metric_sp. Qed.
+Print Assumptions hop_metric_is_shortest_path.
+
+Theorem make_dm_returns_metric : forall A, (0 < length A)%nat ->
+  exists M, make_dm A = DMOk (has_inf (hop_metric A)) M /\ dmatrix M /\ (0 < length M)%nat.
+Proof. exact make_dm_metric. Qed.
+Print Assumptions make_dm_returns_metric.
+
+Theorem relabelled_connected_graphs_isometric_dm : forall A A' p DX DX',
+  is_perm (length A) p -> renamed (img p) A A' ->
+  make_dm A = DMOk false DX -> make_dm A' = DMOk false DX' -> isometric DX DX'.
+Proof. exact make_dm_relabel_connected. Qed.
+Print Assumptions relabelled_connected_graphs_isometric_dm.
+
+(* T1, capstone (C17 + C05).  A pair call on two non-empty graphs, connected or not, given in any
+   encoding, returns - for every row oracle and every well-formed RNG draw - brackets of the mGH
+   distance between two genuine distance matrices (of the graphs, or of their first largest
+   components, with the warning flag set exactly then). *)
+Theorem pair_call_end_to_end : forall (pick : oracle) AG AH s1 s2 w l u,
+  (0 < length AG)%nat -> (0 < length AH)%nat ->
+  gh_pair make_dm (fun _ _ DX DY => estimate2 pick DX DY s1 s2) AG AH = GHPair w l u ->
+  exists DX DY,
+    make_dm AG = DMOk (has_inf (hop_metric AG)) DX /\ make_dm AH = DMOk (has_inf (hop_metric AH)) DY /\
+    w = (has_inf (hop_metric AG) || has_inf (hop_metric AH))%bool /\ dmatrix DX /\ dmatrix DY /\
+    (valid_samples (length DX) (length DY) s1 -> valid_samples (length DY) (length DX) s2 ->
+     two_mgh_ge DX DY l /\ two_mgh_le DX DY u /\ 0 <= l <= u).
+Proof. exact pair_end_to_end. Qed.
+Print Assumptions pair_call_end_to_end.
 
 (* T1.  A collection call returns N x N matrices (N >= 2) that are symmetric with zero diagonal,
    whatever the per-pair estimates (RNG draws) are. *)
@@ -105,6 +141,20 @@ Theorem largest_component_is_metric : forall D : omat, ometric D -> (0 < length 
   exists M, make_dm_of D = DMOk (has_inf D) M /\ dmatrix M /\ (0 < length M)%nat.
 Proof. exact make_dm_of_dmatrix. Qed.
 Print Assumptions largest_component_is_metric.
+
+(* T1.  ... and it IS the shortest-path metric of the induced subgraph on that component: if D is
+   a correct shortest-path answer for A ([sp]), the restricted matrix is a correct shortest-path
+   answer for the adjacency matrix restricted to the component (walks never leave a component). *)
+Theorem largest_component_is_induced_metric : forall (A : mat) (D : omat),
+  length D = length A -> sp A D ->
+  (forall i, (i < length D)%nat -> reach D i i = true) ->
+  (forall i j, (i < length D)%nat -> (j < length D)%nat -> reach D i j = true -> reach D j i = true) ->
+  (forall i j k, (i < length D)%nat -> (j < length D)%nat -> (k < length D)%nat ->
+                 reach D i j = true -> reach D j k = true -> reach D i k = true) ->
+  forall r, (r < length D)%nat ->
+  sp (submat A (members D r)) (restrict_both D (members D r)).
+Proof. exact induced_metric. Qed.
+Print Assumptions largest_component_is_induced_metric.
 
 (* T1 (with C05).  A pair call returns brackets of the distance between the two metric spaces that
    make_distance_matrix produced, and warns iff one of them was a fallback; every entry (i < j) of
